@@ -353,7 +353,7 @@ func processWildcardOrRegexFilter(mQuery *structs.MetricsQuery,
 		}
 
 		// if operator is regex check for match and skip on no match
-		if tf.IsRegex() && len(tagRawValue) > 0 {
+		if tf.IsRegex() {
 			if !matchesRegex(tf.TagOperator, tf.RawTagValue.(string), tagRawValue) {
 				continue
 			}
